@@ -23,7 +23,11 @@ use crate::driver::Fail;
 use crate::ops::mix;
 use crate::ops::Case;
 
-pub const VERIF: &str = "/verif";
+/// Home of the verification tree: `/verif`, or the directory of the `check` script that
+/// started this run (`RLV_HOME`; a `vp run` snapshot must not write into `/verif`).
+pub fn verif_home() -> String {
+    std::env::var("RLV_HOME").ok().filter(|s| !s.is_empty()).unwrap_or_else(|| "/verif".to_string())
+}
 
 #[derive(Debug, Clone, Copy, PartialEq, Eq)]
 pub enum Tier {
@@ -68,7 +72,7 @@ pub struct Known {
 
 impl Known {
     pub fn load() -> Known {
-        let p = format!("{}/known_findings.json", VERIF);
+        let p = format!("{}/known_findings.json", verif_home());
         match std::fs::read_to_string(&p) {
             Ok(s) => {
                 let v: Value = serde_json::from_str(&s).expect("known_findings.json parses");
@@ -198,7 +202,7 @@ impl ShardReport {
 
 pub fn corpus_cases(id: &str) -> Vec<(String, Case)> {
     let mut v = vec![];
-    let d = format!("{}/corpus/{}", VERIF, id);
+    let d = format!("{}/corpus/{}", verif_home(), id);
     if let Ok(rd) = std::fs::read_dir(&d) {
         let mut names: Vec<_> = rd.flatten().map(|e| e.path()).filter(|p| p.extension().map(|e| e == "json").unwrap_or(false)).collect();
         names.sort();
@@ -324,7 +328,7 @@ pub fn run_shard(prop: &dyn Prop, tier: Tier, seed: u64, shard: usize, _nshards:
 }
 
 pub fn replay_path(id: &str, v: &Violation) -> String {
-    let d = format!("{}/replays/{}", VERIF, id);
+    let d = format!("{}/replays/{}", verif_home(), id);
     let _ = std::fs::create_dir_all(&d);
     let s = serde_json::to_string(&v.case).unwrap();
     let mut h = 0u64;
@@ -436,7 +440,7 @@ pub fn run_check(prop: &dyn Prop, tier: Tier, seed: u64, nshards: usize) -> i32 
         "wall_s": wall,
         "violations": by_key.len()
     });
-    let evdir = format!("{}/evidence", VERIF);
+    let evdir = format!("{}/evidence", verif_home());
     let _ = std::fs::create_dir_all(&evdir);
     let evp = format!("{}/{}.json", evdir, prop.id());
     let tmpf = format!("{}.tmp", evp);
